@@ -3,6 +3,7 @@
 package main
 
 import (
+	"errors"
 	"context"
 	"fmt"
 	"math/big"
@@ -61,6 +62,8 @@ func main() {
 	glueCampaigns(o, r, m)
 	timedCampaign(o, r, m)
 	crossCampaign(o, r, m)
+	bigCampaign(o, r, m)
+	svcCampaign(o, r, m)
 	backoffExpiryFinding(o, r)
 
 	r.ModelOps = r.Evaluations
@@ -721,6 +724,12 @@ func mwCampaign(o *hlib.Opts, r *hlib.Result, m *hlib.Model) {
 			c.allow, c.dyn = al0, dyn0
 		}
 		c.est = uint64(100 + rng.IntN(3)*100)
+		if rng.IntN(5) == 0 {
+			// Round 5: some of the profile's clients are allowlisted, so that the
+			// overlap of "allowlisted clients are never dropped" and "a profile's
+			// own limit applies instead" is exercised.
+			c.allow = append(c.allow, netip.MustParsePrefix("10.0.0.0/15"))
+		}
 		lim, al := c.realDyn()
 		ref := newRef(c, false)
 		ref.dynamic = c.dyn
@@ -781,6 +790,11 @@ func mwCampaign(o *hlib.Opts, r *hlib.Result, m *hlib.Model) {
 			Servers:   append([]*agd.Server{srvDNS}, others...),
 			Upstream: dnsserver.HandlerFunc(func(ctx context.Context, rw dnsserver.ResponseWriter, req *dns.Msg) error {
 				upCalls++
+				if respLen == -2 {
+					// Round 5, fault path: the upstream fails after the limiter has let
+					// the request through.
+					return errUpstreamDown
+				}
 				if respLen < 0 {
 					return nil
 				}
@@ -827,6 +841,10 @@ func mwCampaign(o *hlib.Opts, r *hlib.Result, m *hlib.Model) {
 				qt = dns.TypeANY
 			}
 			respLen = genRespLen(rng, c.est, 500)
+			upFails := rng.IntN(9) == 0
+			if upFails {
+				respLen = -2
+			}
 			// (A handler that writes nothing cannot be exercised here: the
 			// production stack's `initial` middleware behind the limiter requires a
 			// response, so the limiter's `resp == nil` branches are unreachable.)
@@ -853,7 +871,18 @@ func mwCampaign(o *hlib.Opts, r *hlib.Result, m *hlib.Model) {
 			}
 			callsBefore := upCalls
 			out := st.Serve(ctx, sreq)
-			if out.Err != nil {
+			if upFails && upCalls > callsBefore {
+				// The request passed the limiter and the upstream failed: the error must
+				// come back (the server answers SERVFAIL), nothing is written by the
+				// middleware, and the request stays counted as one event — a client
+				// whose queries fail must not escape its limit.
+				r.Count("mw.upstream_failure")
+				if !errors.Is(out.Err, errUpstreamDown) || out.Resp != nil {
+					pend = newPending("mw-upstream-error-lost", fmt.Sprintf(
+						"query %d from %s passed the limiter, the upstream failed, but the stack returned error %v and response %v", j, ip, out.Err, out.Resp != nil),
+						map[string]any{"campaign": "mw", "ops": append([]string{}, lines...)})
+				}
+			} else if out.Err != nil {
 				r.Disagree("mw-error", fmt.Sprintf("stack returned error %v", out.Err), lines)
 
 				break
@@ -910,6 +939,12 @@ func mwCampaign(o *hlib.Opts, r *hlib.Result, m *hlib.Model) {
 					switch pv {
 					case "drop":
 						want, how = "dropped", "the profile's own limit is exhausted"
+						if (anyNetHas(ref.persistent, eff) || anyNetHas(ref.dynamic, eff)) && !(c.refuseAny && qt == dns.TypeANY) {
+							// The two clauses of the statement overlap here; the code lets the
+							// profile's limit win (allowlisted_served_unless_profile_limit_partial).
+							how = "the profile's own limit is exhausted; it takes precedence over the allowlist"
+							r.Count("mw.allowlisted_dropped_by_profile_limit")
+						}
 					case "pass":
 						how = "the profile's own limit applies and is not exhausted"
 						refP.countResp(now, eff, countLen)
@@ -977,6 +1012,8 @@ func mwCampaign(o *hlib.Opts, r *hlib.Result, m *hlib.Model) {
 }
 
 var errNotFound = profiledbNotFound()
+
+var errUpstreamDown = errors.New("verif: upstream down")
 
 // profIPs are the linked addresses of the fixture profile's devices: several
 // subnets, so that a profile's ClientSubnets can include some and exclude
